@@ -748,8 +748,12 @@ func cmdCheck(prop, tier string, seed uint64, repo string) int {
 	var newKeys []string
 	knownSeen := map[string]int{}
 	harness := 0
+	violatingRuns := 0
 	for i := range bt.lines {
 		l := &bt.lines[i]
+		if len(l.Violations) > 0 {
+			violatingRuns++
+		}
 		for _, v := range l.Violations {
 			if v.Kind == "harness-race" {
 				harness++
@@ -856,7 +860,7 @@ func cmdCheck(prop, tier string, seed uint64, repo string) int {
 			ok++
 		}
 	}
-	fmt.Printf("property=%s tier=%s seed=%d runs=%d ok=%d wall=%.1fs build=%.1fs new_violations=%d known=%d\n", prop, tier, seed, len(bt.lines), ok, bt.wall.Seconds(), b.wall.Seconds(), len(newKeys), len(knownSeen))
+	fmt.Printf("property=%s tier=%s seed=%d runs=%d ok=%d wall=%.1fs build=%.1fs new_violations=%d known=%d violating_runs=%d\n", prop, tier, seed, len(bt.lines), ok, bt.wall.Seconds(), b.wall.Seconds(), len(newKeys), len(knownSeen), violatingRuns)
 	for _, l := range bt.lines {
 		if l.Status == "harness-panic" {
 			fmt.Printf("INFRASTRUCTURE-ERROR run %d: panic inside the harness: %s\n", l.Index, l.Config)
